@@ -40,9 +40,12 @@ def h_positive(locus, tid, i, j, preset, polya=False):
         info = None
         strand = gi.isoform_strands[tid]
         if polya:
+            # a polyA tail AT T's 3' end: the read reaches T's annotated end (within 10 bp) and the tail follows it
             if strand == "+" and j == len(exons) - 1:
+                g.add(read[-1][1] >= exons[-1][1] - 10)
                 info = PolyAInfo(read[-1][1] + g.int("polya_offset", 0, 10), -1, -1, -1)
             elif strand == "-" and i == 0:
+                g.add(read[0][0] <= exons[0][0] + 10)
                 info = PolyAInfo(-1, read[0][0] - g.int("polyt_offset", 0, 10), -1, -1)
         prof, ra = assign(g, gi, params, read, info)
         t = ra.assignment_type
@@ -86,10 +89,18 @@ def h_negative(locus, tid, kind, preset):
             read = [exons[0], (a, a + 80)] + exons[1:]
         elif kind == "retained_intron":
             read = [(exons[0][0], exons[1][1])] + exons[2:]
+        elif kind == "flanking_exon_right":
+            # part of the last exon spliced to a novel exon far downstream of the isoform
+            a = exons[-1][1] + s
+            read = [(exons[-1][0] + 20, exons[-1][1] - 50), (a, a + 150)]
+        elif kind == "flanking_exon_left":
+            a = exons[0][0] - s
+            read = [(a - 150, a), (exons[0][0] + 50, exons[0][1] - 20)]
         else:
             raise ValueError(kind)
         # the edit must stay inside the intron it modifies and create a structure that no isoform has
         g.add(read[0][1] + 30 < read[1][0])
+        g.add(read[0][0] >= 1)
         for u in gi.all_isoforms_exons:
             g.assume(NOT(intron_chain_compatible(read, gi.all_isoforms_exons[u], params.delta, max(params.delta, params.minor_exon_extension))))
         prof, ra = assign(g, gi, params, read)
@@ -127,11 +138,11 @@ def instances(tier, seed):
                     out.append(Instance("follow[%s,%s,exons %d-%d,%s]" % (locus, tid, i, j, preset), h_positive(locus, tid, i, j, preset), F,
                                         "locus %s, read following %s exons %d..%d, jitters in [-delta,delta], ends symbolic, preset %s" % (locus, tid, i, j, preset),
                                         weight=10 * (j - i + 1), budget_s=1200))
-                if not q and len(exons) > 1:
+                if (not q or locus in ("near_ends", "alt_ends", "skip")) and len(exons) > 1:
                     out.append(Instance("follow_polya[%s,%s,%s]" % (locus, tid, preset), h_positive(locus, tid, 0, len(exons) - 1, preset, True), F,
                                         "full-length read with a polyA/polyT tail at the 3' end", weight=20, budget_s=1200))
             if len(models[0][3]) >= 3:
-                for kind in ("shifted_donor", "novel_exon", "retained_intron"):
+                for kind in ("shifted_donor", "novel_exon", "retained_intron", "flanking_exon_right", "flanking_exon_left"):
                     if kind == "retained_intron":
                         ex0 = models[0][3]
                         rd = [(ex0[0][0], ex0[1][1])] + ex0[2:]
